@@ -401,6 +401,29 @@ func allGraphs(n int, twoFor int) []graph {
 	return out
 }
 
+// graphCount / graphAt enumerate the graphs by index (mixed radix over the
+// per-id history menus) so that no process has to hold the whole list.
+func graphCount(n, twoFor int) int {
+	c := 1
+	for id := 1; id <= n; id++ {
+		c *= len(histories(n, id <= twoFor))
+	}
+	return c
+}
+
+func graphAt(n, twoFor, idx int) graph {
+	g := graph{N: n, Versions: map[int][][]int{}}
+	for id := 1; id <= n; id++ {
+		hs := histories(n, id <= twoFor)
+		h := hs[idx%len(hs)]
+		idx /= len(hs)
+		if h != nil {
+			g.Versions[id] = h
+		}
+	}
+	return g
+}
+
 func requestLists(n int, maxLen int) [][]int {
 	ids := []int{}
 	for i := 1; i <= n; i++ {
@@ -437,15 +460,28 @@ func main() {
 			n, twoFor, reqLen = 3, 3, 2
 			dA = 5
 		}
-		graphs := allGraphs(n, twoFor)
 		reqs := requestLists(n, reqLen)
 		reqs = append(reqs, []int{1, 2, 3}, []int{3, 2, 1}, []int{1, 1, 2}, []int{2, 9, 1}, []int{3, 3, 3})
-		for _, g := range graphs {
-			for _, rq := range reqs {
-				scs = append(scs, drainScenario(g, rq))
+		// the drain family is produced lazily, 400 graphs per worker job
+		ngraphs := graphCount(n, twoFor)
+		var gens []vexplore.Generator
+		for lo := 0; lo < ngraphs; lo += 400 {
+			lo := lo
+			hi := lo + 400
+			if hi > ngraphs {
+				hi = ngraphs
 			}
+			gens = append(gens, vexplore.Generator{Name: fmt.Sprintf("drain graphs %d..%d", lo, hi-1), Gen: func(yield func(*vexplore.Scenario)) {
+				for gi := lo; gi < hi; gi++ {
+					g := graphAt(n, twoFor, gi)
+					for _, rq := range reqs {
+						sc := drainScenario(g, rq)
+						yield(&sc)
+					}
+				}
+			}})
 		}
-		r.Set("graphs", len(graphs))
+		r.Set("graphs", ngraphs)
 		r.Set("request_lists", len(reqs))
 		fixed := []struct {
 			name string
@@ -479,7 +515,7 @@ func main() {
 		}
 		r.Set("stop_scenarios", nStop)
 		sort.SliceStable(scs, func(i, j int) bool { return false })
-		e := &vexplore.Explorer{R: r, Scenarios: scs}
+		e := &vexplore.Explorer{R: r, Scenarios: scs, Generators: gens}
 		budget := 6 * time.Minute
 		if !r.Quick() {
 			budget = 30 * time.Minute
